@@ -4,11 +4,13 @@
 //@ props: C14
 //@ expect: postcondition>=2 canary=4
 #include "_unit.h"
+/* strcmp.0: is_sensitive() compares with the 8-byte literal "tls.key": at most 8 rounds.  strcpy/memcpy are the loop-free
+ * models of env/ctl_env.h.  xv_ctl_g_len0/_namelen/_len (arbitrary after xv_ctl_ghost_havoc) are bound to attrs_len,
+ * strlen(attr_name), len by the contract. */
 void harness(void)
 {
     xv_ghost_havoc();
     xv_ctl_ghost_havoc();
-    xv_ctl_g_len0 = nondet_size_t(); xv_ctl_g_namelen = nondet_size_t(); xv_ctl_g_len = nondet_size_t();
     const char *name; enum xcm_attr_type type; void *value; size_t len; void *data;
     add_attr(name, type, value, len, data);
     if (xv_ctl_g_len0 < 63 && xv_ctl_g_namelen == 63 && xv_ctl_g_len == 512) XV_CANARY("largest reportable attribute");
